@@ -6,7 +6,7 @@ import time
 from fractions import Fraction
 
 from harness.common import *  # noqa: F401,F403
-from harness.common import np, Explorer, Check, Sym, W, prove_zero, prove_small, model_to_env, fmt_env, rng, explore, Stub
+from harness.common import np, Explorer, Check, Sym, W, prove_zero, prove_small, model_to_env, fmt_env, rng, explore, Stub, opaque
 from engine import bseries as bs
 from engine.bseries import BS, EMPTY, f_apply, trees_of_order, order as torder, gamma, sigma, tree_str
 
@@ -385,6 +385,128 @@ def helper_contracts(chk):
         lambda r: [Sym.lift(r[0]) >= atol, Sym.lift(r[0]) >= atol + rtol * ya, Sym.lift(r[0]) >= atol - rtol * ya, Sym.lift(r[0]) >= atol + rtol * yb, Sym.lift(r[0]) >= atol - rtol * yb])
 
 
+def dense_callsites(chk, scheme, ham, budget):
+    """The adaptive drivers evaluate the dense output of the RIGHT accepted step with the RIGHT arguments: for every requested
+    time t_q the interpolant of the segment [t_j, t_j+1] containing it is used, built from (t_j, y_j, f(t_j, y_j), y_j+1, f_j+1,
+    h_j, K_j) and evaluated at (t_q - t_j)/h_j.  The right-hand side is time dependent (uninterpreted in t and y)."""
+    import hiten.algorithms.integrators.rk as rk
+    from harness import drivers as D
+    from harness.drivers import same
+    from harness.common import And, Or
+    tr = D.Tracker(1, 2)
+    tA, tM, tB = W.var('tA'), W.var('tM'), W.var('tB')
+    y0 = np.array([W.var('y0_0')])
+    rtol, atol, hmax, hmin = W.vars('rtol atol max_step min_step')
+    tag = '%s%s' % (scheme, '_ham' if ham else '')
+    ex = Explorer(max_paths=4000, time_budget_s=budget, max_decisions=250)
+    ex.abs_by_branch = False
+    with explore.activate(ex):
+        for c in (tA < tM, tM < tB, rtol > 0, atol > 0, hmin > 0, hmin <= hmax):
+            ex.assume(c)
+    t_eval = np.array([tA, tM, tB])
+    cls = rk._RK45 if scheme == 'rk45' else rk._DOP853
+
+    def go():
+        tr.reset()
+        with D.stubbed(rk, tr, real_dense=False, autonomous=False) as f:
+            try:
+                if scheme == 'rk45':
+                    kw = dict(y0=y0, t_eval=t_eval, A=cls._A, B_HIGH=cls._B_HIGH, C=cls._C, E=cls._E, P=rk.RK45_P, rtol=rtol, atol=atol, max_step=hmax, min_step=hmin, order=5)
+                    out = cls._integrate_rk45_ham(jac_H=None, clmo_H=None, n_dof=1, **kw) if ham else cls._integrate_rk45(f=f, **kw)
+                else:
+                    kw = dict(y0=y0, t_eval=t_eval, A=cls._A, B_HIGH=cls._B_HIGH, C=cls._C, E5=cls._E5, E3=cls._E3, D=rk.DOP853_D, n_stages_extended=rk.DOP853_N_STAGES_EXTENDED,
+                              interpolator_power=rk.DOP853_INTERPOLATOR_POWER, A_full=rk.DOP853_A, C_full=rk.DOP853_C, rtol=rtol, atol=atol, max_step=hmax, min_step=hmin, order=8)
+                    out = cls._integrate_dop853_ham(jac_H=None, clmo_H=None, n_dof=1, **kw) if ham else cls._integrate_dop853(f=f, **kw)
+                return ('done', out, tr.snapshot())
+            except D.StopUnwinding:
+                return ('cut', None, tr.snapshot())
+    paths = ex.run(go)
+    ndone = 0
+    for n, p in enumerate(paths):
+        base = 'C02/(3)dense-callsite/%s/path %d' % (tag, n)
+        if isinstance(p.exc, explore.PathAbort):
+            continue
+        if p.exc is not None:
+            chk.fail(base, 'raised %r' % (p.exc,), None)
+            continue
+        status, out, snap = p.value
+        if status != 'done':
+            continue
+        ndone += 1
+        steps = snap['steps']
+        acc = []
+        for k, s_ in enumerate(steps):
+            nxt = steps[k + 1] if k + 1 < len(steps) else None
+            if nxt is None or (same(nxt['t'], Sym.lift(s_['t']) + s_['h']) and same(nxt['y'], s_['yh'])):
+                acc.append(s_)
+        ts = [Sym.lift(tA)] + [Sym.lift(s_['t']) + s_['h'] for s_ in acc]
+        ys = [y0] + [s_['yh'] for s_ in acc]
+        evals = [d for d in snap['dense'] if d[0].startswith('eval')]
+        problems = []
+        goals = []
+        if len(evals) != 3:
+            problems.append('%d dense evaluations for 3 requested times' % len(evals))
+        with explore.activate(ex):
+            for idx, (kind, a) in enumerate(evals[:3]):
+                tq = Sym.lift(t_eval[idx])
+                js = [j for j in range(len(acc)) if same(a['y_old'], ys[j])]
+                if not js:
+                    problems.append('output %d interpolates from a state that is no accepted node' % idx)
+                    continue
+                j = js[0]
+                hseg = ts[j + 1] - ts[j]
+                goals += [tq >= ts[j], tq <= ts[j + 1]]
+                goals.append((Sym.lift(a['x']) * hseg - (tq - ts[j])) == 0)
+                if kind == 'eval45':
+                    goals.append((Sym.lift(a['hseg']) - hseg) == 0)
+                    # K of the accepted step j: the stub kernel's K atoms are functions of (t_j, y_j, h_j)
+                    if not same(a['K'][0, 0], opaque('S_K0_0', *D.flat_args(acc[j]['t'], acc[j]['y'], acc[j]['h']))):
+                        problems.append('output %d uses the stage derivatives of another step' % idx)
+                else:
+                    c = a['cache']
+                    if not same(a['K'][0, 0], opaque('S_K0_0', *D.flat_args(acc[j]['t'], acc[j]['y'], acc[j]['h']))):
+                        problems.append('output %d uses the stage derivatives of another step' % idx)
+                    if not (same(c['t_old'], ts[j]) and same(c['y_old'], ys[j]) and same(c['y_new'], ys[j + 1]) and same(c['hseg'], hseg)):
+                        problems.append('output %d: dense cache built with t_old=%r hseg=%r instead of the bracketing step (t_j=%r, h_j=%r)' % (idx, c['t_old'], c['hseg'], ts[j], hseg))
+                    if not ham:
+                        fj = D.vec('F', 1, *D.flat_args(ts[j], ys[j]))
+                        fj1 = D.vec('F', 1, *D.flat_args(ts[j + 1], ys[j + 1]))
+                        if not (same(c['f_old'], fj) and same(c['f_new'], fj1)):
+                            problems.append('output %d: end-point derivatives are not f(t_j, y_j), f(t_j+1, y_j+1)' % idx)
+        if problems:
+            if not any(o['id'] == 'C02/(3)dense-callsite/%s' % tag for o in chk.obl):
+                chk.fail('C02/(3)dense-callsite/%s' % tag, '; '.join(problems[:2]), _replay_dense_nonautonomous(scheme), None)
+            else:
+                chk.obl.append({'id': base, 'verdict': 'sat', 'detail': problems[0]})
+            continue
+        v, m, k = ex.prove_all(p, goals)
+        if v == 'unsat':
+            chk.ok(base, '%d accepted steps: every requested time is interpolated on its own bracketing step with that step\'s data and fraction (t_q - t_j)/h_j' % len(acc),
+                   sample={'accepted': len(acc)} if n in (0, 6) else None)
+        elif v == 'sat':
+            chk.fail(base, 'dense-output call-site goal %d fails at %s' % (k, fmt_env(model_to_env(m))), _replay_dense_nonautonomous(scheme), model_to_env(m))
+        else:
+            chk.unknown(base, v)
+    st = chk.absorb(ex)
+    chk.note('dense call sites %s: %d paths, %d terminated within 2 kernel calls' % (tag, st['paths'], ndone))
+
+
+def _replay_dense_nonautonomous(scheme):
+    return '''
+from hiten.algorithms.integrators.rk import AdaptiveRK
+from hiten.algorithms.dynamics.rhs import create_rhs_system
+import numba
+@numba.njit
+def rhs(t, y):
+    return np.array([np.cos(3.0 * t) * 3.0 + 0.0 * y[0]])       # y = sin(3 t), explicitly time dependent
+sysm = create_rhs_system(rhs, dim=1, name='forced')
+tv = np.linspace(0.0, 4.0, 201)
+sol = AdaptiveRK(order=%d, rtol=1e-9, atol=1e-9).integrate(sysm, np.array([0.0]), tv)
+err = float(np.max(np.abs(sol.states[:, 0] - np.sin(3.0 * tv))))
+_verdict(err > 1e-5, max_dense_output_error=err, requested_tolerance=1e-9)
+''' % (5 if scheme == 'rk45' else 8)
+
+
 def main():
     chk = Check(PID)
     import hiten.algorithms.integrators.rk as rkmod
@@ -416,6 +538,9 @@ def main():
     driver_chain(chk, ex, rkmod)
     zero_span(chk, rkmod)
     helper_contracts(chk)
+    for scheme in ('rk45', 'dop853'):
+        for ham in (False, True):
+            dense_callsites(chk, scheme, ham, 300)
     from harness.C10 import adaptive_skeleton
     for scheme in ('rk45', 'dop853'):
         adaptive_skeleton(chk, 'C02/(5)', scheme, False, 2, 300)
